@@ -17,7 +17,9 @@ META = {
             'before / M units of the directly following literal disappear.  The tokeniser has type pattern -> tokens, so no '
             'value is ever inspected for pattern syntax.  The pre-repair in-band evaluator is refuted (F4 witnesses).  '
             'The model is tied to the code by generated (pattern, message, attributes) triples run through the real '
-            'PatternFormatter, and the extracted oracle is evaluated on the real output.',
+            'PatternFormatter, and the extracted oracle is evaluated on the real output (text and null/non-null).  A concurrent leg '
+            '(k threads, own formatter and messages each, start barrier) requires every result to equal the single-threaded model output; '
+            'it is probabilistic by nature.',
     'note': 'Trusted: Coq 8.16.1 kernel (vm_compute only on closed examples / witnesses), no axioms; tools/s2c/pattern.py '
             '(regex translation of patternformatter.cpp and logmessage.h: placeholder names, type names, alignment '
             'characters, suffix/fill, mid() offsets, in-band marker vs out-of-band counter, statement shapes of the '
@@ -53,6 +55,8 @@ def hx(s):
 
 
 def unhx(h):
+    if h.endswith('/null'):
+        return unhx(h[:-5]) + '<NULL QString>'
     if h in ('-', '~', ''):
         return ''
     return bytes.fromhex(h).decode('utf-16-be', 'surrogatepass')
@@ -214,8 +218,14 @@ class Gen:
                 elif k == 'b':
                     attrs.append([k, 'b', r.choice([0, 1])])
                 else:
-                    attrs.append([k, 's', self.value()])
-        c = {'pat': pat, 'type': r.randrange(5), 'msg': self.value(), 'cat': r.choice(CATS), 'file': r.choice(FILES),
+                    # a NULL QString as the value (QVariant(QString()).isNull()) is still a present attribute with value ""
+                    attrs.append([k, 's', None if r.random() < 0.12 else self.value()])
+        if r.random() < 0.05:
+            # only conditional sections: for most message types nothing is emitted (the result must be "" and not null)
+            self.hit('shape:only-conditional-sections')
+            pat = ''.join('%{if-' + t + '}' + r.choice(['X', '%{message}', 'CRIT %{message}', '%{u?1,1}']) + r.choice(['%{endif}', '%{endif}', ''])
+                          for t in r.sample(['debug', 'info', 'warning', 'critical', 'fatal'], r.randint(1, 3)))
+        c = {'pat': pat, 'type': r.randrange(5), 'msg': (None if r.random() < 0.02 else self.value()), 'cat': r.choice(CATS), 'file': r.choice(FILES),
              'fn': r.choice(FUNCS), 'line': r.choice([42, 0, 1, 99999, -1, 2147483647]), 'attrs': attrs}
         self.hit('ntok-items:%d' % min(n, 10))
         return c
@@ -254,18 +264,18 @@ def model_line(c, impl_out):
     """impl_out: the harness's output line -> (model input line, implementation's formatted text as hex) or None"""
     p = impl_out.split(' ')
     ENVF = case_env(c)
-    if len(p) != 4 + len(ENVF) or p[0].startswith('!'):
+    if len(p) != 5 + len(ENVF) or p[0].startswith('!'):
         return None, None
-    out, tid, ptr, fnc = p[0], int(p[1]), int(p[2]), p[3]
+    out, nul, tid, ptr, fnc = p[0], p[1], int(p[2]), int(p[3]), p[4]
     f = [hx(c['pat']), str(c['type']), hx(c['msg']), hx(c['cat']), hx(c['file']), hx(c['fn']), fnc, str(c['line']),
          bin(tid)[2:], bin(ptr)[2:], str(len(c['attrs']))]
     for k, t, v in c['attrs']:
         f += [hx(k), (t + hx(v)) if t == 's' else (t + str(v))]
     f += [str(len(ENVF))]
-    for t, r in zip(ENVF, p[4:]):
+    for t, r in zip(ENVF, p[5:]):
         f += [hx(t), r]
-    f.append(out)
-    return ' '.join(f), out
+    f += [out, nul]
+    return ' '.join(f), out + ('/null' if nul == 'N' else '')
 
 
 def evaluate(cases, impl, model):
@@ -287,16 +297,17 @@ def evaluate(cases, impl, model):
         raise RuntimeError('model driver failed: rc=%s %s' % (rc2, err2[-500:]))
     for i, l in zip(idx, mo):
         p = l.split(' ')
-        if len(p) != 6:
-            res[i].update({'model': '?', 'oracle': False, 'ntok': 0, 'nrem': 0, 'full': '?', 'envmiss': False, 'parse_error': l[:100]})
+        if len(p) != 7:
+            res[i].update({'model': '?', 'oracle': False, 'ntok': 0, 'nrem': 0, 'full': '?', 'envmiss': False, 'null_expected': False, 'parse_error': l[:100]})
         else:
-            res[i].update({'model': p[0], 'oracle': p[1] == '1', 'ntok': int(p[2]), 'nrem': int(p[3]), 'full': p[4], 'envmiss': p[5] == '1'})
+            res[i].update({'model': p[0] + ('/null' if p[6] == 'N' else ''), 'oracle': p[1] == '1', 'ntok': int(p[2]), 'nrem': int(p[3]),
+                           'full': p[4], 'envmiss': p[5] == '1', 'null_expected': p[6] == 'N'})
     return res
 
 
 def describe(c, r):
     d = {'case': c, 'pattern': c['pat'], 'message': c['msg'], 'type': c['type'], 'attributes': c['attrs'],
-         'has_zero_width_space': ZW in (c['msg'] + c['pat'] + ''.join(str(a[2]) for a in c['attrs'])),
+         'has_zero_width_space': ZW in ((c['msg'] or '') + c['pat'] + ''.join(str(a[2] or '') for a in c['attrs'])),
          'implementation_output': unhx(r.get('impl', '')), 'model_output': unhx(r.get('model', '')),
          'documented_concatenation': unhx(r.get('full', '')), 'active_removing_optional_attributes': r.get('nrem'),
          'implementation_output_hex': r.get('impl'), 'model_output_hex': r.get('model')}
@@ -309,11 +320,67 @@ def shrink(c, impl, model, bad):
         d = dict(c); d[k] = v; return d
     cur = dict(c)
     for key in ('pat', 'msg'):
+        if cur[key] is None:
+            continue
+
         def still(chars, key=key):
             return bad(dict(cur, **{key: ''.join(chars)}))
         cur[key] = ''.join(vlib.shrink_list(list(cur[key]), still, max_steps=250))
     cur['attrs'] = vlib.shrink_list(cur['attrs'], lambda a: bad(dict(cur, attrs=a)), max_steps=40)
     return cur
+
+
+def concurrent_cases(g, n):
+    """cases for the concurrent leg; index i belongs to thread i mod 4: threads 0,1 format patterns with missing
+    optional attributes followed by literals, threads 2,3 literal-led patterns without any optional attribute"""
+    r = g.rng
+    drop = [' %{user?1,1}d %{user?0,2}xy %{user?2,3}abc %{user?,1}payload', '[%{w?1,1}] %{message}', '#%{w?1} %{w?,2}ab%{w?1,3}cdef<%{w?1,1}>x',
+            '%{message}%{w?,4}12345678%{w?,1}-%{w?,2}end', '(%{w?1,1}) (%{w?1,1}) (%{w?1,1}) %{type}', 'a%{w?,1}b%{w?,1}c%{w?,1}d%{w?,1}e%{w?,1}f']
+    vict = ['[%{type}] %{message} -- end', 'abc%{message}def', '%{if-debug}D%{endif}%{if-info}I%{endif} literal %{category}: %{message}',
+            'x', '%{message:>12} | tail', '{"level":"%{type}","msg":"%{message}"}', '%% 100%% %{file} (%{line})']
+    out = []
+    for i in range(n):
+        base = g.case()
+        if i % 4 in (0, 1):
+            pat = r.choice(drop)
+            attrs = [a for a in base['attrs'] if a[0] not in ('w', 'user')]
+        else:
+            pat = r.choice(vict)
+            attrs = base['attrs']
+        out.append(dict(base, pat=pat, attrs=attrs, msg=r.choice(['payload', 'hello world', 'x', '', 'a' + ZW + 'b'])))
+    return out
+
+
+def concurrent_leg(chk, cases, impl, model, threads, rounds, maxms):
+    """k threads, each with its own PatternFormatter/LogMessage objects, format their own cases in a tight loop behind a
+    start barrier; every result must equal the single-threaded result, which must equal the model's output."""
+    single = evaluate(cases, impl, model)
+    rc, outs, err = vlib.run_lines(impl, [impl_line(c) for c in cases], ['threads', str(threads), str(rounds), str(maxms)], timeout=600)
+    calls = bad = 0
+    first = None
+    if rc != 0 or len(outs) != len(cases):
+        chk.fail('the formatter crashed when used from %d threads at once' % threads,
+                 {'kind': 'concurrent_crash', 'threads': threads, 'rc': rc, 'stderr': err[-400:], 'cases': cases}, kind='concurrent_crash')
+        return {'threads': threads, 'calls': 0, 'wrong_results': 0}
+    for i, (c, l) in enumerate(zip(cases, outs)):
+        ref, n, b, fb = l.split(' ')
+        calls += int(n); bad += int(b)
+        if single[i]['crashed'] or ref != single[i]['model'].replace('/null', ''):
+            chk.broke('concurrent leg: the single-threaded result of pattern %r is not the model output' % c['pat'],
+                      {'kind': 'correspondence', 'case': c, 'implementation_output_hex': ref, 'model_output_hex': single[i].get('model')})
+        if int(b) and first is None:
+            first = (i, c, ref, fb, int(n), int(b))
+    if first:
+        i, c, ref, fb, n, b = first
+        chk.fail('concurrent use: %d threads with their own PatternFormatter and messages; thread %d formatting pattern %r message %r got %r instead of %r '
+                 '(%d of its %d calls wrong; %d of %d calls wrong in total)' % (threads, i % threads, c['pat'], c['msg'], unhx(fb), unhx(ref), b, n, bad, calls),
+                 {'kind': 'concurrent', 'threads': threads, 'rounds': rounds, 'max_ms': maxms, 'cases': cases, 'failing_case_index': i,
+                  'pattern': c['pat'], 'message': c['msg'], 'expected_single_threaded_and_model': unhx(ref), 'got': unhx(fb),
+                  'wrong_results': bad, 'calls': calls,
+                  'note': 'probabilistic: depends on the interleaving; replay re-runs the same threads/cases/rounds'}, kind='concurrent')
+    return {'threads': threads, 'cases': len(cases), 'calls': calls, 'wrong_results': bad, 'rounds_limit': rounds, 'time_limit_ms': maxms,
+            'note': 'probabilistic leg: a data race shows only under some interleavings; the seeded shared-counter patch '
+                    '(seeded/C12-ind-r2-3) gives wrong results within the first thousands of calls on this machine'}
 
 
 def load_corpus():
@@ -338,6 +405,7 @@ def run():
     chk.assumptions = ['widths are capped at %d in generated patterns (F6: width near INT_MAX -> bad_alloc is C14\'s finding)' % MAXW,
                        'category/file/function are printable ASCII (the property\'s quantifier)',
                        'attribute values are strings, ints or bools (QVariant::toString of other types is outside the model)',
+                       'concurrent leg: formatters and messages are per thread (no object is shared); it is a stress test, not a proof of thread safety',
                        'messages and values are well-formed UTF-16 (truncation may still cut a surrogate pair, as documented in the model)']
     chk.proof(vlib.proof_leg('Properties_C12', ['pattern']))
     model = vlib.build_model('pattern')
@@ -371,10 +439,28 @@ def run():
         i = crashed[0]
         chk.fail('the formatter threw / the harness died on a generated pattern', dict(describe(cases[i], res[i]), kind='crash', raw=res[i].get('impl_raw')), kind='crash')
     # property falsified on the implementation: report one input per class (verbatim = no removal requested)
-    for cls, sel in (('verbatim', [i for i in falsified if res[i]['nrem'] == 0]), ('removal', [i for i in falsified if res[i]['nrem'] > 0])):
+    def null_wrong(r):
+        return r['impl'].endswith('/null') != r['null_expected']
+
+    nullbad = [i for i in falsified if null_wrong(res[i])]
+    if nullbad:
+        i = min(nullbad, key=lambda i: len(cases[i]['pat']) + len(cases[i]['msg'] or ''))
+
+        def bad_null(c):
+            r = evaluate([c], impl, model)[0]
+            return (not r['crashed']) and not r['envmiss'] and null_wrong(r)
+        small = shrink(cases[i], impl, model, bad_null)
+        r = evaluate([small], impl, model)[0]
+        chk.fail('the result is a %s QString where it must be %s (LogMessage::isFormatted() is !isNull(): sinks would print the raw message '
+                 'instead of the formatted text): pattern %r message %r type %d' % (
+                     'NULL' if r['impl'].endswith('/null') else 'non-null', 'null (the null message itself)' if r['null_expected'] else 'non-null (empty when nothing is emitted)',
+                     small['pat'], small['msg'], small['type']),
+                 dict(describe(small, r), kind='null_result', falsified_cases=len(nullbad)), kind='null_result')
+    falsified_text = [i for i in falsified if not null_wrong(res[i])]
+    for cls, sel in (('verbatim', [i for i in falsified_text if res[i]['nrem'] == 0]), ('removal', [i for i in falsified_text if res[i]['nrem'] > 0])):
         if not sel:
             continue
-        i = min(sel, key=lambda i: (i >= len(corpus), len(cases[i]['pat']) + len(cases[i]['msg'])))
+        i = min(sel, key=lambda i: (i >= len(corpus), len(cases[i]['pat']) + len(cases[i]['msg'] or '')))
         small = shrink(cases[i], impl, model, lambda c, cls=cls: bad_oracle(c, cls == 'removal'))
         r = evaluate([small], impl, model)[0]
         what = ('output differs from the token-by-token concatenation of literal text and padded values although no optional attribute asks for a removal'
@@ -383,7 +469,7 @@ def run():
         chk.fail('%s: pattern %r message %r -> %r, documented %r' % (what, small['pat'], small['msg'], unhx(r['impl']), unhx(r['full'])),
                  dict(describe(small, r), kind=cls, falsified_cases=len(sel), model_disagrees=r['impl'] != r['model']), kind=cls)
     if differs and not falsified:
-        i = min(differs, key=lambda i: len(cases[i]['pat']) + len(cases[i]['msg']))
+        i = min(differs, key=lambda i: len(cases[i]['pat']) + len(cases[i]['msg'] or ''))
         small = shrink(cases[i], impl, model, bad_diff)
         r = evaluate([small], impl, model)[0]
         chk.broke('correspondence: model and PatternFormatter differ on %d cases (oracle holds on all of them), e.g. pattern %r message %r: implementation %r model %r'
@@ -407,8 +493,10 @@ def run():
         'tokens_histogram': {str(k): v for k, v in sorted(hist_tok.items())},
         'active_removing_optional_attributes_histogram': {str(k): v for k, v in sorted(hist_rem.items())},
         'outputs_exactly_documented_concatenation': sum(1 for i in ok if res[i]['impl'] == res[i]['full']),
-        'cases_with_zero_width_space_in_values': sum(1 for c in cases if ZW in c['msg'] or any(ZW in str(a[2]) for a in c['attrs'])),
+        'cases_with_zero_width_space_in_values': sum(1 for c in cases if ZW in (c['msg'] or '') or any(ZW in str(a[2] or '') for a in c['attrs'])),
         'generator_histogram': dict(sorted(g.hist.items()))})
+    cc = concurrent_cases(g, 32)
+    chk.cov['concurrent_leg'] = concurrent_leg(chk, cc, impl, model, 8 if thorough else 4, 2000000 if thorough else 40000, 15000 if thorough else 1500)
     if thorough:
         san = vlib.build_harness('pattern', 'san')
         sub = cases[:20000]
@@ -430,6 +518,14 @@ def replay(path):
     r = d.get('replay', d)
     if isinstance(r, list):
         r = r[0]
+    if r.get('kind') in ('concurrent', 'concurrent_crash') and r.get('cases'):
+        vlib.gen_src(['pattern'])
+        model = vlib.build_model('pattern'); impl = vlib.build_harness('pattern')
+        chk = vlib.Check('C12')
+        print(json.dumps(concurrent_leg(chk, r['cases'], impl, model, r.get('threads', 4), r.get('rounds', 40000), r.get('max_ms', 1500)), indent=1))
+        for w, _ in chk.failing + chk.broken:
+            print(w)
+        return 0
     c = r.get('case')
     if not c:
         print(json.dumps(r, indent=1)); return 0
